@@ -394,9 +394,11 @@ class FTPProcessorSession(BaseProcessorSession):
                 continue
 
             # The name is a file name, not a URL reference: "#", "?", "%"
-            # and ":" in it stand for themselves.
-            quoted_name = urllib.parse.quote(
-                file_entry.name, safe='', errors='surrogateescape')
+            # and ":" in it stand for themselves. Only these are escaped
+            # (the rest is left to the URL normalization, so that the URL
+            # is spelled as a user would have typed it).
+            quoted_name = './' + file_entry.name.replace('%', '%25') \
+                .replace('#', '%23').replace('?', '%3F')
 
             if file_entry.type == 'dir':
                 linked_url = urljoin_safe(base_url, quoted_name + '/')
